@@ -217,7 +217,7 @@ func c15Legacy(c c15Case, res *engine.JobResult) {
 	args, stdin, outfile, cleanup := c.Base.cliArgs(0)
 	defer cleanup()
 	args = append(args, c.Legacy...)
-	r := engine.CLI(stdin, 30*time.Second, nil, args...)
+	r := engine.CLI(stdin, 120*time.Second, nil, args...)
 	oldO := c.Base.cliObs(r, outfile)
 	if newO.String() != oldO.String() {
 		res.Violate("legacy-trim-flags", fmt.Sprintf("legacy %v gives %s; the equivalent --start/--end run gives %s", c.Legacy, oldO.String(), newO.String()), c)
@@ -471,7 +471,7 @@ func init() {
 					// mixing the two families must be refused
 					base := Call{Cmd: "toma", Sam: samText(c01L, recs), Start: 2}
 					args, stdin, _, cleanup := base.cliArgs(0)
-					r := engine.CLI(stdin, 30*time.Second, nil, append(args, "--trimend", "4")...)
+					r := engine.CLI(stdin, 120*time.Second, nil, append(args, "--trimend", "4")...)
 					cleanup()
 					res.Evals++
 					res.Validated++
